@@ -707,6 +707,11 @@ func (hs *serverHandshakeStateGM) setCipherSuite(id uint16, supportedCipherSuite
 			if version < VersionTLS12 && candidate.flags&suiteTLS12 != 0 {
 				continue
 			}
+			// The server side of the ECDHE-SM2 key agreement is not
+			// implemented (see ecdheKeyAgreementGM), so never select it.
+			if candidate.flags&suiteECDHE != 0 {
+				continue
+			}
 			hs.suite = candidate
 			return true
 		}
